@@ -4,8 +4,8 @@
    pr::ModuleDef and rq::RelationalQuery) and Gen/GenEntry.v (call chains of lib.rs) are regenerated from
    /repo on every run. *)
 From Coq Require Import List NArith ZArith Bool.
-From PV Require Import Lib.ListX Model.Json Model.Serde Model.SerdeDoc Model.SerdeStaged.
-From PV Require Import Proofs.SerdeCodecProofs Proofs.SerdeProofs Proofs.SerdeDeProofs Proofs.SerdeStaged.
+From PV Require Import Lib.ListX Model.Json Model.VersionReq Model.Serde Model.SerdeDoc Model.SerdeStaged.
+From PV Require Import Proofs.SerdeCodecProofs Proofs.VersionReqProofs Proofs.SerdeProofs Proofs.SerdeDeProofs Proofs.SerdeStaged.
 From PV Require Import Gen.GenSerde Gen.GenEntry.
 Import ListNotations.
 
@@ -138,6 +138,29 @@ Print Assumptions c15_span_codec_roundtrip.
 Theorem c15_ident_codec_roundtrip : forall p n, ident_de (ident_ser p n) = Some (p, n).
 Proof. exact ident_codec_roundtrip. Qed.
 Print Assumptions c15_ident_codec_roundtrip.
+
+(* semver::VersionReq (Deserialize = from_str, Serialize = Display; Model/VersionReq.v follows semver 1.0.27's parse.rs and
+   display.rs; pre-release / build metadata not modelled): Display then from_str is the identity on every value from_str can
+   return, and from_str returns only such values *)
+Theorem c15_versionreq_codec_roundtrip : forall l, vreq_wf l = true -> vreq_parse (vreq_print l) = Some l.
+Proof. exact vreq_parse_print. Qed.
+Print Assumptions c15_versionreq_codec_roundtrip.
+
+Theorem c15_versionreq_parse_wf : forall t l, vreq_parse t = Some l -> vreq_wf l = true.
+Proof. exact vreq_parse_wf. Qed.
+Print Assumptions c15_versionreq_parse_wf.
+
+(* on texts: whatever is accepted is held as a Display form, and a Display form is read back as itself *)
+Theorem c15_versionreq_text_stable : forall t s, vreq_normalise t = Some s -> vreq_normal s = true /\ vreq_normalise s = Some s.
+Proof. intros t s H. split; [eapply vreq_normalise_normal; exact H | eapply vreq_normalise_idem; exact H]. Qed.
+Print Assumptions c15_versionreq_text_stable.
+
+Example c15_ex_versionreq :
+  vreq_normalise [32;62;61;32;49;46;48;32;44;60;50]%N (* " >= 1.0 ,<2" *) = Some [62;61;49;46;48;44;32;60;50]%N (* ">=1.0, <2" *)
+  /\ vreq_normalise [49;46;120]%N (* "1.x" *) = Some [49;46;42]%N (* "1.*" *)
+  /\ vreq_normalise [48;49]%N (* "01" *) = None
+  /\ vreq_normal [94;48;46;49;51]%N (* "^0.13" *) = true.
+Proof. repeat split; vm_compute; reflexivity. Qed.
 
 (* ---- staged = direct, by composition.
    Full statement (false of the faithful model, F14):
